@@ -140,6 +140,23 @@ static std::string handle(const std::vector<std::string>& a) {
         return os.str();
     }
 
+    if (op == "unidx" && n == 10) { // take-back moves of TBPosition: tb unidx <counts> <i>
+        PieceCount pc;
+        if (!parseCounts(a, 1, pc)) return "bad-op";
+        TBPosition tp(pc);
+        U64 i = vToU64(a[9]);
+        if (i >= tp.nPositions()) return "bad-op";
+        tp.setIndex((U32)i);
+        if (!tp.indexValid()) return "inv";
+        if (tp.canTakeKing()) return "ctk";
+        TbMoveList lst;
+        tp.getUnMoves(lst);
+        std::ostringstream os;
+        os << "u";
+        for (int k = 0; k < lst.getSize(); k++) os << ' ' << lst[k];
+        return os.str();
+    }
+
     if (op == "probe" && n >= 4) { // tb probe <ply> <w|b> <castleMask> <code@sq>...
         if (!curKind) return "bad-op";
         int ply = (int)vToInt(a[1]);
